@@ -3452,7 +3452,8 @@ class Constructs(mixin.Container, core.Constructs):
         out = self.unfilter(depth=depth)
 
         if depth:
-            if "inverse_filter" in self.filters_applied()[-1]:
+            filters_applied = self.filters_applied()
+            if filters_applied and "inverse_filter" in filters_applied[-1]:
                 filters = out.filters_applied()
                 d = 1
                 while True:
